@@ -324,7 +324,7 @@ fn assertions_body(heap: bool) {
     std::mem::forget(a);
 }
 
-/// @tier thorough
+/// @tier off
 /// @fn rpki::slurm::LocallyAddedAssertions::iter_payload rpki::slurm::PrefixAssertion::to_payload
 ///   rpki::slurm::BgpsecAssertion::to_payload rpki::slurm::AspaAssertion::to_payload
 ///   rpki::slurm::LocallyAddedAssertions::new
@@ -338,7 +338,7 @@ fn assertions_body(heap: bool) {
 #[kani::unwind(4)]
 fn assertions_yield_their_fields() { assertions_body(false); }
 
-/// @tier thorough
+/// @tier off
 /// @fn rpki::slurm::LocallyAddedAssertions::iter_payload
 ///   rpki::slurm::BgpsecAssertion::to_payload rpki::slurm::AspaAssertion::to_payload
 /// @bounds as assertions_yield_their_fields but with an arbitrary 3-byte
